@@ -53,6 +53,16 @@ def m1(ck: Check) -> None:
             if e.field == "depth" and e.kind in ("store", "create"):
                 stores.append((fm, e))
     helpers = {fm.f.key: fm for fm, e in stores if e.kind == "store"}
+    # bulk writes of node attributes (networkx set_node_attributes, nodes[..].update(depth=..)) bypass the edge-update helper
+    for fm in prog.models():
+        for c in own_walk(fm.f.node):
+            if isinstance(c, ast.Call) and (dotted(c.func) or "").split(".")[-1] == "set_node_attributes":
+                nm = call_arg(c, 2, "name")
+                if nm is None or (isinstance(nm, ast.Constant) and nm.value == "depth") or not isinstance(nm, ast.Constant):
+                    ck.ob("M1", fm, fm.f.stmt_of(c), False,
+                          f"`{text(c)[:70]}` writes node depths in bulk, outside the edge-update helper: depth is the length of the "
+                          f"*longest* path from the root, which only the helper maintains (a shortest-path or level numbering differs "
+                          f"for every node with parents on different levels)", key=f"bulk depth write in {fm.f.name}")
     for fm, e in stores:
         if e.kind == "create":
             ok = isinstance(e.value, ast.Constant) and e.value.value == 0
@@ -571,6 +581,13 @@ def m4(ck: Check) -> None:
                 t = [a for a in logic.atoms(rpc) if a[0] == "b" and a[1].startswith("in:") and f"FIELD<self|{s}|space>" in a[1]]
                 if t and logic.implies(rpc, logic.Not(("atom", t[0]))):
                     ok_ret = True
+                    # ... for every successor: nothing else about the successor decides whether its edge is compared
+                    sel = [a for a in logic.atoms(rpc) if a[0] == "b" and a is not t[0] and a[1] != t[0][1]
+                           and (f"|{s}|" in a[1] or f"({s})" in a[1]) and not a[1].startswith("none:")]
+                    if sel:
+                        probs.append(f"line {r.lineno}: the edge to a successor is compared only under `{sel[0][1][:60]}`: edges to the "
+                                     f"other successors (e.g. unexpanded stubs) are never looked at, so diagrams that differ in these "
+                                     f"edges count as included / equal")
         if not ok_ret:
             probs.append("a successor whose image is not a successor in the other diagram does not make the result False")
         # other successors: [] unless other node expanded
@@ -670,6 +687,13 @@ def m5(ck: Check) -> None:
                 var = text(lp.target)
                 if node_txt != var:
                     probs.append("attractor data requested for a node other than the loop's node")
+                # every node of the loop gets its data requested: no iteration can pass the request by
+                from .c13 import _within as _w5, _tbranch as _tb5
+                hdr5 = fm.cfg.loop_header[lp]
+                if cn.id in fm.cfg.loop_nodes[lp] and hdr5.id in _w5(fm, lp, _tb5(fm, lp), {cn.id}):
+                    probs.append(f"an iteration of the node loop can skip the request for attractor data (a `continue` or a "
+                                 f"condition before line {cn.lineno}): the attractors of the skipped expanded nodes -- e.g. "
+                                 f"motif-avoidant ones in non-minimal nodes -- are missing from the result")
                 if not (isinstance(src, ast.Call) and callee_name(src) == "expanded_ids" and text(src.func.value) == "self"):
                     pc = fm.pc(cn)
                     at = logic.B(f"T:FIELD<self|{var}|expanded>")
